@@ -43,6 +43,8 @@ type g2lUnit struct {
 	sumTypes  map[string][]string // interface -> the struct types that implement it: emitted as an inductive sum
 	embedGet  map[string]string   // method name -> embedded field it returns ("Comment" -> "Comments")
 	printfTo  map[string]string   // "printer.printf" -> the bytes.Buffer field the method formats into
+	accumTypes map[string]bool  // foreign types treated as byte accumulators ("hash.Hash": Write appends, Sum hashes)
+	mutCalls  map[string]string // statement calls that replace their argument: "sort.Strings" -> "sortStrings"
 	ignoreCalls map[string]bool // method names whose calls (as statements) are dropped: "Close"
 	errFields map[string]bool   // error struct types whose (string / integer) fields are kept in the error text
 	errCarry  map[string]bool   // error struct types whose single field is returned in the (otherwise nil) first result slot
@@ -293,8 +295,16 @@ func isErrorType(t types.Type) bool {
 }
 
 func (f *g2lFn) leanType(t types.Type, at ast.Node) string {
-	if isBytesBuffer(t) {
+	if isBytesBuffer(t) || f.isAccum(t) {
 		return "Bytes"
+	}
+	if sig, ok := t.(*types.Signature); ok {
+		// a function-typed parameter (open func(string) (io.ReadCloser, error))
+		ps := []string{}
+		for i := 0; i < sig.Params().Len(); i++ {
+			ps = append(ps, f.leanType(sig.Params().At(i).Type(), at))
+		}
+		return "(" + strings.Join(ps, " → ") + " → " + f.leanType(sig.Results(), at) + ")"
 	}
 	if n, ok := t.(*types.Named); ok {
 		name := n.Obj().Name()
@@ -376,7 +386,7 @@ func (f *g2lFn) structType(name string) string {
 }
 
 func (f *g2lFn) zero(t types.Type, at ast.Node) string {
-	if isBytesBuffer(t) {
+	if isBytesBuffer(t) || f.isAccum(t) {
 		return "([] : Bytes)"
 	}
 	if n, ok := t.(*types.Named); ok {
@@ -953,6 +963,9 @@ func indent(s string, n int) string {
 
 // conversion T(x)
 func (f *g2lFn) convert(b *binds, to types.Type, arg ast.Expr, at ast.Node) string {
+	if id, ok := arg.(*ast.Ident); ok && id.Name == "nil" {
+		return f.zero(to, at)
+	}
 	from := f.typeOf(arg)
 	x := f.expr(b, arg)
 	tk, fk := intKindOf(to), intKindOf(from)
@@ -1021,4 +1034,15 @@ type g2lClosure struct {
 	modified []string
 	modV     []*types.Var
 	capV     []*types.Var
+}
+
+func (f *g2lFn) isAccum(t types.Type) bool {
+	if p, ok := t.(*types.Pointer); ok {
+		t = p.Elem()
+	}
+	n, ok := t.(*types.Named)
+	if !ok || n.Obj().Pkg() == nil {
+		return false
+	}
+	return f.u.accumTypes[n.Obj().Pkg().Name()+"."+n.Obj().Name()]
 }
